@@ -244,7 +244,7 @@ fn rich_clause(s: &mut dyn Src) -> Clause {
 impl Property for RenameProp {
     fn id(&self) -> &'static str { self.id }
     fn max_len(&self) -> usize { 256 }
-    fn budget(&self) -> (u64, u64) { (4000, 100_000) }
+    fn budget(&self) -> (u64, u64) { (16_000, 100_000) }
 
     fn check(&self, s: &mut dyn Src, rep: &mut Report) -> CaseResult {
         if chance(s, 1, 3) {
